@@ -10,7 +10,7 @@ import vlib
 FAMILIES = ["ws", "inl", "ctl", "attr", "call", "cf"]
 
 
-def enumerate_programs(ck, plan, seed):
+def enumerate_programs(ck, plan, seed, module="MCTemplLang", cfgprefix="TemplLang", tag="PROG"):
     """plan: list of (family, mode, arg): mode "bfs" (arg = MaxNodes override or None), "sim" (arg = num traces).
     Returns list of program dicts (id assigned), per-family counts."""
     progs = []
@@ -19,7 +19,7 @@ def enumerate_programs(ck, plan, seed):
 
     def one(item):
         fam, mode, arg = item
-        cfgname = "TemplLang_%s.cfg" % fam
+        cfgname = "%s_%s.cfg" % (cfgprefix, fam)
         text = open(os.path.join(vlib.SPEC, cfgname)).read()
         files = None
         if mode == "bfs":
@@ -27,23 +27,23 @@ def enumerate_programs(ck, plan, seed):
                 import re
                 text = re.sub(r"MaxNodes = \d+", "MaxNodes = %d" % arg, text)
             files = {"run.cfg": text}
-            res = vlib.tlc("MCTemplLang", "run.cfg", files=files, workers=1, timeout=3000, xmx="6g")
+            res = vlib.tlc(module, "run.cfg", files=files, workers=1, timeout=3000, xmx="6g")
             if not res.ok:
-                raise vlib.InfraError("TemplLang %s: invariant %s violated in the language model" % (fam, res.violated))
+                raise vlib.InfraError("%s %s: invariant %s violated in the model" % (cfgprefix, fam, res.violated))
         else:
             files = {"run.cfg": text}
-            res = vlib.tlc("MCTemplLang", "run.cfg", files=files, workers=1, simulate="num=%d" % arg, depth=80,
+            res = vlib.tlc(module, "run.cfg", files=files, workers=1, simulate="num=%d" % arg, depth=80,
                            tlc_seed=seed, timeout=1200, xmx="4g")
             if res.violated:
-                raise vlib.InfraError("TemplLang %s: invariant %s violated in the language model" % (fam, res.violated))
+                raise vlib.InfraError("%s %s: invariant %s violated in the model" % (cfgprefix, fam, res.violated))
         return item, res
 
     with ThreadPoolExecutor(max_workers=6) as ex:
         results = list(ex.map(one, plan))
     for (fam, mode, arg), res in results:
-        ck.add_tlc(res, "TemplLang_%s %s %s" % (fam, mode, arg))
+        ck.add_tlc(res, "%s_%s %s %s" % (cfgprefix, fam, mode, arg))
         n = 0
-        for p in res.tagged("PROG"):
+        for p in res.tagged(tag):
             key = json.dumps(p["prog"], sort_keys=True)
             if key in seen:
                 continue
